@@ -1,7 +1,7 @@
 (* C02 - A poll returns exactly the requested slice of the log, whichever tier holds it.
    FULL statement: every poll of every reachable state equals the slice of the abstract log
    (PartSpec.slice_offset / slice_last / slice_ts / slice_next), i.e. the model run is accepted by the monitor: *)
-From IggyV Require Import Base.Tactics Base.ListX Model.Part Model.PartSpec Proofs.PartBasics Proofs.PartHistory Proofs.CacheHistory.
+From IggyV Require Import Base.Tactics Base.ListX Model.Part Model.PartSpec Proofs.PartBasics Proofs.PartHistory Proofs.PartCounts Proofs.CacheHistory Proofs.ReadExact Proofs.ReadPart Proofs.ReadHistory.
 Open Scope N_scope.
 
 Definition C02_full : Prop :=
@@ -41,6 +41,66 @@ Proof.
   apply (cache_answer_exact _ m0 chr _ _ HQ Ec Hinc H3 H1 H2). unfold first_start. rewrite Es. lia.
 Qed.
 
+(* PROVED, history level, EVERY tier (every operation list: sends, flushes, background saves, clean restarts, purges, size-based
+   retention, cache eviction, polls with auto-commit, offset operations, setting changes; cache on or off; cached index (binary
+   search) or index-file scan): in every reachable state a poll by offset returns EXACTLY the stored messages with offsets
+   [lo, lo + count - 1], lo = max (requested start) (earliest retained offset) - nothing missing, nothing foreign, nothing twice,
+   in order - whether the cache, the index + log file of one segment, the unsaved buffer, a glue of file and buffer, or a run of
+   several segments answers.  Side conditions: segment size > 0, no message expiry configured, offsets below 2^32, every log
+   file below 2^32 bytes (32-bit index positions), non-zero send timestamps (the index-file scan treats the all-zero entry as
+   "none yet").  By-timestamp polls are not covered (C02_full remains stated for them). *)
+Theorem C02_offset_polls_exact : forall ops c t0, good_cfg c -> Forall no_expiry_op ops -> Forall pos_ts_op ops ->
+  Forall (fun q => abase q <= B32 /\ size_ok q) (prun_states (c, part_new c t0) ops) ->
+  let c' := fst (pfinal (c, part_new c t0) ops) in let p := snd (pfinal (c, part_new c t0) ops) in
+  forall start count, 1 <= count -> start <= p_cur p ->
+  let lo := N.max start (first_start p) in
+  poll_offset c' p start count = filter (in_range lo (lo + (count - 1))) (part_all p).
+Proof. exact poll_offset_history. Qed.
+
+(* the same for the kinds that go through the offset path: first, last, next (individual consumer or consumer group) *)
+Theorem C02_first_last_next_exact : forall ops c t0, good_cfg c -> Forall no_expiry_op ops -> Forall pos_ts_op ops ->
+  Forall (fun q => abase q <= B32 /\ size_ok q) (prun_states (c, part_new c t0) ops) ->
+  let c' := fst (pfinal (c, part_new c t0) ops) in let p := snd (pfinal (c, part_new c t0) ops) in
+  forall count, 1 <= count ->
+  poll_first c' p count = filter (in_range (first_start p) (first_start p + (count - 1))) (part_all p) /\
+  (let req := N.min count (p_cur p + 1) in let lo := N.max (1 + p_cur p - req) (first_start p) in
+   poll_last c' p count = filter (in_range lo (lo + (req - 1))) (part_all p)) /\
+  (forall grp cid, (forall o, assoc cid (offs p grp) = Some o -> o <= p_cur p) ->
+   let lo := match assoc cid (offs p grp) with Some o => N.max (o + 1) (first_start p) | None => first_start p end in
+   poll_next c' p grp cid count = filter (in_range lo (lo + (count - 1))) (part_all p)).
+Proof.
+  intros ops c t0 Hc Hops Hts Hb. cbn zeta. intros count Hcount.
+  pose proof (history_R ops c (part_new c t0) Hc (R_new c t0) Hops Hts Hb) as HR.
+  split; [apply poll_first_exact; assumption|]. split; [apply poll_last_exact; assumption|].
+  intros grp cid Ho. apply poll_next_exact; assumption.
+Qed.
+
+(* the side conditions are met by ordinary histories, and the statement is about non-trivial reads: two closed segments, an open
+   one holding only an unsaved buffer, retention, a restart; cache off, index read by file scan; the poll starts below the
+   earliest retained offset and spans all three segments (one of them with two batches) and the buffer *)
+Example C02_offset_polls_nonvacuous :
+  let c := {| c_req := 2; c_seg := 150; c_cache := false; c_idx := false; c_dedup := false; c_expiry := None; c_max := Some 400; c_del_oldest := true |} in
+  let ops := [OSend 10 [(1, 10, 0); (2, 10, 0)]; OSend 11 [(3, 40, 0)]; ORestart 12; OSend 13 [(4, 10, 0); (5, 10, 0); (6, 10, 0)]; OMaintain 14;
+              OSend 15 [(7, 1, 0)]; OSave; OSend 16 [(8, 1, 0); (9, 1, 0)]; OSend 17 [(10, 1, 0)]] in
+  let p := snd (pfinal (c, part_new c 1) ops) in
+  good_cfg c /\ Forall no_expiry_op ops /\ Forall pos_ts_op ops /\
+  Forall (fun q => abase q <= B32 /\ size_ok q) (prun_states (c, part_new c 1) ops) /\
+  map s_start (p_segs p) = [3; 6; 9] /\ map (fun s => nlen (acc_msgs s)) (p_segs p) = [0; 0; 1] /\
+  map m_off (poll_offset (fst (pfinal (c, part_new c 1) ops)) p 1 9) = [3; 4; 5; 6; 7; 8; 9] /\
+  map m_off (part_all p) = [3; 4; 5; 6; 7; 8; 9].
+Proof.
+  intros c ops p. split; [split; reflexivity|]. split; [repeat (constructor; [exact I|]); constructor|].
+  split; [repeat (constructor; [try exact I; cbv beta iota; discriminate|]); constructor|].
+  split; [|vm_compute; repeat split; reflexivity].
+  apply Forall_forall. intros q Hq.
+  assert (Hall : forallb (fun q => (abase q <=? B32) && size_okb q) (prun_states (c, part_new c 1) ops) = true) by (vm_compute; reflexivity).
+  rewrite forallb_forall in Hall. specialize (Hall q Hq). apply andb_true_iff in Hall. destruct Hall as [H1 H2].
+  split; [apply N.leb_le; exact H1 | apply size_okb_ok; exact H2].
+Qed.
+
 Print Assumptions C02_read_sound_partial.
 Print Assumptions C02_disk_sound_partial.
 Print Assumptions C02_cache_tier_exact_partial.
+Print Assumptions C02_offset_polls_exact.
+Print Assumptions C02_first_last_next_exact.
+Print Assumptions C02_offset_polls_nonvacuous.
